@@ -54,6 +54,12 @@ def inline_pieces(cls, overloads):
                         name='%sVisitor::bvisit(const %s &) [in-class]' % (cls, o)))
     return ps
 
+def _pred_unit(prop):
+    import importlib.util
+    spec = importlib.util.spec_from_file_location('units_C06_for_' + prop, os.path.join(os.path.dirname(__file__), '..', 'C06', 'units.py'))
+    m = importlib.util.module_from_spec(spec); spec.loader.exec_module(m)
+    return m.pred_unit(prop)
+
 def units(tier):
     tri = Unit('tribool', 'C34', 'contracts/C34/tribool.cpp', {'tribool.inc': tribool_pieces()},
                [Entry('h_tri', timeout=120, bounds="all 3x3 tribool values x both truth values")], route='F',
@@ -89,10 +95,12 @@ def units(tier):
                 trusted=["the recursive calls accept()/check_power()/NegativeVisitor::apply() on a child are replaced by their CONTRACT: any sound answer about the child's ghost value (induction hypothesis)",
                          "Add/Mul stubs: coefficient, term dictionary, get_args; Add/Mul type invariants (non-empty dictionary, non-zero Mul coefficient) assumed as preconditions"],
                 assumptions=["Integer/Rational/Complex/Algebraic/Polynomial visitors' Add/Mul/Pow rules, check_power bodies, Assumptions::is_* and function-specific rules are not under contract"])
-    return [tri, num, comb]
+    return [tri, num, comb, _pred_unit('C34')]
 
 def replay_args(obl, inputs, res):
-    if 'Visitor.Add' in obl or 'Visitor.Mul' in obl:
+    if '.predicates.' in obl:
+        return [obl] + (['D.i=%s' % inputs['D.i'].get('binary')] if 'D.i' in inputs else [])
+    if 'Visitor.Add' in obl or 'Visitor.Mul' in obl or 'Visitor.AddMul' in obl:
         return [obl] + (["kf=1"] if res.get('_nokf') else [])
     keep = ('a_type', 'a_cls', 'a_v', 'which', 'ci')
     return [obl] + ["%s=%s" % (k, v.get("binary") or v.get("data")) for k, v in sorted(inputs.items()) if k in keep]
